@@ -217,6 +217,11 @@ def file_violation(prop, rej, family_cmd):
         f.writelines(rej["lines"])
     with open(os.path.join(d, "tlc.out"), "w") as f:
         f.write(rej["tlc"])
+    # scenarios derived from a model (histories, insert sequences, ...) are regenerated from the
+    # JSON document TLC's output was turned into: keep a copy next to the trace
+    if family_cmd.get("input") and os.path.exists(family_cmd["input"]):
+        shutil.copy(family_cmd["input"], os.path.join(d, "input.json"))
+        family_cmd = dict(family_cmd, input="input.json")
     with open(os.path.join(d, "scenario.json"), "w") as f:
         json.dump(dict(property=prop, scenario=rej["scn"], first_unmatched_event=rej["ev"],
                        line_in_scenario=rej["at"], spec=family_cmd), f, indent=1)
